@@ -153,3 +153,90 @@ def wrapper_stage(ctx):
     n = ri.run_wrapper_fuzz(ctx, count, handler)
     ctx.cov['evaluations'] += n
     ctx.stage('wrapper-agreement', cases=n, chunk_dependent=st['multi'])
+    concurrent_stage(ctx)
+
+
+def concurrent_stage(ctx):
+    """The bytes only - not who else is inspecting at the same time: streams inspected one after the other, then the
+    same streams in four threads at once (wrappers, bare inspectors and detect_file_format on files)."""
+    import os
+    import random
+    import sys
+    import threading
+    import logging
+    from checks import real_images as ri
+    from vf import insp
+    from oslo_utils.imageutils import format_inspector as fi
+    logging.disable(logging.CRITICAL)
+    rnd = random.Random(ctx.seed + 77)
+    cases = []
+    j = 0
+    while len(cases) < (40 if ctx.quick else 200):
+        label, fmts, data, _ = ri.fuzz_case(j * 13 + 5, random.Random(ctx.seed * 31 + j))
+        j += 1
+        if 600 <= len(data) <= 400000:
+            cases.append((label, data))
+    paths = []
+    for k, (label, data) in enumerate(cases):
+        p = os.path.join(ctx.work, 'conc_%d.img' % k)
+        with open(p, 'wb') as fh:
+            fh.write(data)
+        paths.append(p)
+
+    def one(k):
+        label, data = cases[k]
+        rs = (512, 4096, 1000, 65536)[k % 4]
+        out = [ri.wrapper_outcome(data, rs)[0]]
+        try:
+            out.append(str(fi.detect_file_format(paths[k])))
+        except Exception as e:      # noqa
+            out.append('EXC:' + type(e).__name__)
+        for name in sorted(fi.ALL_FORMATS)[k % 4::4]:
+            try:
+                i = fi.ALL_FORMATS[name].from_file(paths[k])
+                out.append((name, 'from_file', insp.safe(lambda: bool(i.format_match)), insp.safe(lambda: i.virtual_size),
+                            insp.safety_outcome(i)))
+            except Exception as e:  # noqa
+                out.append((name, 'from_file', 'EXC:' + type(e).__name__))
+        for name in sorted(fi.ALL_FORMATS)[k % 3::3]:
+            i = fi.ALL_FORMATS[name]()
+            try:
+                for off in range(0, len(data), rs):
+                    i.eat_chunk(data[off:off + rs])
+                i.finish() if hasattr(i, 'finish') else None
+                out.append((name, insp.safe(lambda: bool(i.format_match)), insp.safe(lambda: i.virtual_size),
+                            insp.safety_outcome(i)))
+            except Exception as e:  # noqa
+                out.append((name, 'EXC:' + type(e).__name__))
+        return repr(out)
+    alone = [one(k) for k in range(len(cases))]
+    again = [one(k) for k in range(len(cases))]
+    if alone != again:
+        raise MachineryError('the sequential reference of the concurrent stage is not reproducible')
+    results = {}
+    old_si = sys.getswitchinterval()
+    sys.setswitchinterval(1e-5)
+
+    def worker(t):
+        order = list(range(len(cases)))
+        random.Random(t).shuffle(order)
+        for k in order:
+            results[(t, k)] = one(k)
+    try:
+        ths = [threading.Thread(target=worker, args=(t,)) for t in range(4)]
+        [t.start() for t in ths]
+        [t.join() for t in ths]
+    finally:
+        sys.setswitchinterval(old_si)
+    bad = 0
+    for (t, k), got in sorted(results.items()):
+        if got != alone[k]:
+            bad += 1
+            ctx.violation({'kind': 'conclusion-depends-on-concurrent-inspections'},
+                          {'case': cases[k][0], 'size': len(cases[k][1]), 'alone': alone[k][:1500], 'with_three_other_threads': got[:1500]},
+                          'inspection of %s (%d bytes) concludes %s alone and %s while three other threads inspect other streams' % (
+                              cases[k][0], len(cases[k][1]), alone[k][:300], got[:300]))
+    for p in paths:
+        os.unlink(p)
+    ctx.cov['evaluations'] += 6 * len(cases)
+    ctx.stage('concurrent-inspections', streams=len(cases), threads=4, differing=bad)
